@@ -14,12 +14,13 @@ type vTxnPlan struct {
 }
 
 type vObsWorld struct {
-	nsOf   map[string]string    // anchor string -> namespace
-	cur    string               // anchor string of the transaction being processed
+	nsOf           map[string]string // anchor string -> namespace
+	cur            string            // anchor string of the transaction being processed
 	wrongNamespace bool
-	plans  map[string]*vTxnPlan // by anchor string
-	stored [][]*operation.AnchoredOperation
-	order  []string
+	plans          map[string]*vTxnPlan // by anchor string
+	stored         [][]*operation.AnchoredOperation
+	genesis        uint64
+	order          []string
 }
 
 var vO *vObsWorld
@@ -51,8 +52,10 @@ func (c vObsClient) Get(version uint64) (protocol.Version, error) {
 
 type vObsVersion struct{ ns string }
 
-func (v vObsVersion) Version() string             { return "1.0" }
-func (v vObsVersion) Protocol() protocol.Protocol { return protocol.Protocol{} }
+func (v vObsVersion) Version() string { return "1.0" }
+
+// the genesis time of the version in force is arbitrary: it is NOT the transaction's protocol version
+func (v vObsVersion) Protocol() protocol.Protocol { return protocol.Protocol{GenesisTime: vO.genesis} }
 func (v vObsVersion) TransactionProcessor() protocol.TxnProcessor {
 	// the REAL transaction processor over harness providers
 	return txnprocessor.New(&txnprocessor.Providers{OpStore: vObsStore{v.ns}, OperationProtocolProvider: vObsProvider{v.ns}})
@@ -120,6 +123,7 @@ func VHarness_C15_observer_isolation() {
 		txns = append(txns, txn.SidetreeTxn{Namespace: ns, AnchorString: names[i], TransactionTime: uint64(100 + i), TransactionNumber: uint64(i),
 			ProtocolVersion: uint64(i), CanonicalReference: "ref-" + names[i]})
 	}
+	vO.genesis = VNondetU64("version.genesisTime")
 	o := New(&Providers{ProtocolClientProvider: vClientProvider{}})
 
 	o.process(txns) // REAL code
@@ -141,6 +145,7 @@ func VHarness_C15_observer_isolation() {
 		idx++
 		for a, x := range got {
 			VAssert("C15/observer-stamped-with-own-transaction", VAnd(x.TransactionTime == uint64(100+i), x.TransactionNumber == uint64(i), x.CanonicalReference == "ref-"+names[i]))
+			VAssert("C15/observer-stamped-with-own-protocol-version", x.ProtocolVersion == uint64(i))
 			for _, y := range got[:a] {
 				VAssert("C15/observer-one-per-suffix", x.UniqueSuffix != y.UniqueSuffix)
 			}
